@@ -8,13 +8,16 @@ import "math/rand"
 // filled — by the last fresh event the node ever gets — the whole run has to be applied: nothing else will
 // call trySyncNextBlock again (tickers do not, re-deliveries are dropped as seen before it).  The model's
 // try_sync has no bound per call (fuel = cached headers + 1); these histories make the code show the same on
-// runs of 8..301 blocks, sizes around powers of two and ten.
+// runs of 8..301 blocks, sizes around powers of two and ten (quick tier: up to 257).
 
-// BacklogSizes: the run lengths by stratum (small / around one hundred / several hundred).
+// BacklogSizes: the run lengths by stratum (small / around one hundred / around two hundred and 256 / around
+// three hundred).  The quick tier uses the first three strata (evaluating the model on a history of n headers
+// costs about n^3: the hash link makes a header term as deep as its height), the thorough tier all four.
 var BacklogSizes = [][]int{
 	{8, 9, 10, 11, 15, 16, 17, 31, 32, 33, 63, 64, 65},
 	{99, 100, 101, 102, 127, 128, 129},
-	{199, 200, 201, 255, 256, 257, 299, 300, 301},
+	{199, 200, 201, 255, 256, 257},
+	{299, 300, 301},
 }
 
 // GenBacklog: chain = p blocks delivered in order first (applied at once), the hole, a run of L complete
